@@ -51,6 +51,11 @@ impl Register {
         self.index.into()
     }
 
+    /// Whether the [`Register`] is never deallocated.
+    pub(crate) fn is_persistent(&self) -> bool {
+        self.flags.is_persistent()
+    }
+
     pub(crate) fn persistent(index: u32) -> Self {
         Self {
             index,
